@@ -9,14 +9,10 @@ from .sqlmodel import local_defs, peewee_chains, single_def, sql_sites
 
 
 def _resolve(e, fi, depth=0):
-    """follow single-assignment locals"""
-    while isinstance(e, ast.Name) and depth < 6:
-        v = single_def(fi, e.id)
-        if v is None:
-            break
-        e = v
-        depth += 1
-    return e
+    """follow single-assignment locals (including tuple assignments)"""
+    from .trace import resolve
+
+    return resolve(e, fi, depth)
 
 
 def _ev_text(e, ev):
@@ -95,28 +91,37 @@ def codec_sqlite(prog, rep, rule="CODEC"):
     fi = prog.func("_rows_to_events")
     rep.unit("functions", fi.qname)
     ev_calls = [c for c in walk_with_nested_exprs(fi.node) if isinstance(c, ast.Call) and norm(c.func) == "Event"]
-    loops = [n for n in walk_own(fi.node) if isinstance(n, ast.For) and isinstance(n.target, ast.Name)]
+    loops = [n for n in walk_own(fi.node) if isinstance(n, ast.For)]
     idx = {}
     if len(ev_calls) != 1 or len(loops) != 1:
         rep.undecided(rule, fi.short, "decoder", "not one loop building one Event(...)", fi.loc())
     else:
-        row = loops[0].target.id
+        lp = loops[0]
         kw = {k.arg: _resolve(k.value, fi) for k in ev_calls[0].keywords}
 
         def row_index(e):
-            if isinstance(e, ast.Subscript) and isinstance(e.value, ast.Name) and e.value.id == row and isinstance(e.slice, ast.Constant):
+            """row[i]  or  the i-th name of `for a, b, c, d in rows`"""
+            e = _resolve(e, fi)
+            if isinstance(lp.target, ast.Name) and isinstance(e, ast.Subscript) and isinstance(e.value, ast.Name) and e.value.id == lp.target.id and isinstance(e.slice, ast.Constant):
                 return e.slice.value
+            if isinstance(lp.target, (ast.Tuple, ast.List)) and isinstance(e, ast.Name):
+                for i, t in enumerate(lp.target.elts):
+                    if isinstance(t, ast.Name) and t.id == e.id:
+                        return i
             return None
 
         def ts_decode(e):
-            """datetime.fromtimestamp(row[i] / S, timezone.utc) -> (i, S)"""
-            if isinstance(e, ast.Call) and norm(e.func) in ("datetime.fromtimestamp", "datetime.datetime.fromtimestamp") and len(e.args) == 2 and norm(e.args[1]) in ("timezone.utc", "datetime.timezone.utc"):
-                a = e.args[0]
-                if isinstance(a, ast.BinOp) and isinstance(a.op, ast.Div):
-                    i = row_index(a.left)
-                    S = const_value(a.right, fi, prog)
-                    if i is not None and S is not None:
-                        return i, S
+            """datetime.fromtimestamp(<row i> / S, timezone.utc) -> (i, S)"""
+            e = _resolve(e, fi)
+            if isinstance(e, ast.Call) and norm(e.func) in ("datetime.fromtimestamp", "datetime.datetime.fromtimestamp"):
+                tz = e.args[1] if len(e.args) == 2 else next((k.value for k in e.keywords if k.arg == "tz"), None)
+                if tz is not None and norm(tz) in ("timezone.utc", "datetime.timezone.utc") and e.args:
+                    a = e.args[0]
+                    if isinstance(a, ast.BinOp) and isinstance(a.op, ast.Div):
+                        i = row_index(a.left)
+                        S = const_value(a.right, fi, prog)
+                        if i is not None and S is not None:
+                            return i, S
             return None
 
         ok = set(kw) == {"id", "timestamp", "duration", "data"}
@@ -127,9 +132,9 @@ def codec_sqlite(prog, rep, rule="CODEC"):
             d = kw["duration"]
             e_dec = None
             if isinstance(d, ast.BinOp) and isinstance(d.op, ast.Sub):
-                e_dec = ts_decode(_resolve(d.left, fi))
-                s_again = _resolve(d.right, fi)
-                if t is None or norm(s_again) != norm(kw["timestamp"]):
+                e_dec = ts_decode(d.left)
+                s_again = ts_decode(d.right)
+                if t is None or s_again != t:
                     e_dec = None
             dd = kw["data"]
             di = row_index(dd.args[0]) if isinstance(dd, ast.Call) and norm(dd.func) == "json.loads" and len(dd.args) == 1 else None
